@@ -156,7 +156,9 @@ Inductive mop :=
 | MDropRef (a : N)
 | MRetInvoke (r : ret) (m : option msg)
 | MValDrop (a : N)         (* the Drop impl of an actor's own value begins *)
-| MDelDone                (* timer_del returns true *)
+| MDelDone (k : tk) (v : N)   (* timer_del returns true *)
+| MOrphNew (a : N)         (* an init step returns Some(value) although it asked to stop / fail ... *)
+| MOrphDrop (a : N)        (* ... the value is dropped by apply_prep after the termination *)
 | MTerminate (a : N) (c : cause)
 | MLogClose (a : N) (c : cause)
 | MToReady (a : N)
@@ -398,7 +400,7 @@ Definition var_timer (s : st) (k : tk) (v : N) : option titem :=
 Definition timer_add (s : st) (k : tk) (v : N) (t : Z) (ci : citem) : st :=
   let i := tnext s in
   let ord := Z.max t (now s) in
-  let s1 := emit s (ESub QTimer (ci_uid ci) (ci_call ci)) in
+  let s1 := emit (emit s (ESub QTimer (ci_uid ci) (ci_call ci))) (ETimerVar k v (ci_uid ci)) in
   let ci := ci_setq ci QTimer in
   set_tvars (set_tnext (set_timers s1 (timers s1 ++ [TI i k t ord ci])) (i + 1)%N) (vset (tvars s1) k v i).
 
@@ -413,6 +415,7 @@ Definition created (e : ev) : option (N * N) :=
   | EActor a => Some (LK_NOTIFY, a)
   | ETokNew t => Some (LK_TOK, t)
   | EFwdNew f => Some (LK_FWD, f)
+  | EOrphNew a => Some (LK_ORPH, a)
   | _ => None
   end.
 
@@ -424,6 +427,7 @@ Definition consumed (e : ev) : option (N * N) :=
   | ENotify a _ => Some (LK_NOTIFY, a)
   | ETokDrop t => Some (LK_TOK, t)
   | EFwdFree f => Some (LK_FWD, f)
+  | EOrphDrop a => Some (LK_ORPH, a)
   | _ => None
   end.
 
@@ -570,8 +574,8 @@ Definition do_act (a : act) (s : st) : list mop * st :=
         match var_timer s k v with
         | Some (TI i _ _ _ ci0) =>
             (* the closure leaves the timer set: it is dropped as a closure that sits in no queue *)
-            ([MDropItem (ci_unq ci0); MDelDone], set_timers s (ti_remove (timers s) i))
-        | None => ([], emit s (EBool TAG_DEL false))
+            ([MDropItem (ci_unq ci0); MDelDone k v], set_timers s (ti_remove (timers s) i))
+        | None => ([], emit s (ETimerDel k v false))
         end
       else bad s 8
   | ATimerActive k v =>
@@ -1061,7 +1065,7 @@ Definition handle (m : mop) (s : st) : list mop * st :=
             | FMeth a => match f_die fr with Some c => [MTerminate a c] | None => [] end
             | FPrep a ready =>
                 match f_die fr with
-                | Some c => [MTerminate a c]
+                | Some c => if ready then [MOrphNew a; MTerminate a c; MOrphDrop a] else [MTerminate a c]
                 | None => if ready then [MToReady a] else []
                 end
             end in
@@ -1076,7 +1080,9 @@ Definition handle (m : mop) (s : st) : list mop * st :=
   | MDropRef a => drop_ref a s
   | MRetInvoke r m0 => ret_invoke r m0 s
   | MValDrop a => ([], emit s (EValDrop a))
-  | MDelDone => ([], emit s (EBool TAG_DEL true))
+  | MDelDone k v => ([], emit s (ETimerDel k v true))
+  | MOrphNew a => ([], emit s (EOrphNew a))
+  | MOrphDrop a => ([], emit s (EOrphDrop a))
   | MTerminate a c => terminate a c s
   | MLogClose a c =>
       match aget (actors s) a with
@@ -1126,7 +1132,8 @@ Definition handle (m : mop) (s : st) : list mop * st :=
       end
   | MDrain i =>
       if i >=? TEARDOWN_ROUNDS then
-        ([MDropFields], if is_nil (mainq s) then s else emit s (EModel M_DRAINLEFT 0))
+        ([MDropFields], if is_nil (mainq s) then s
+                            else emit s (EModel (if i >=? F4_CLASS_ROUNDS then M_DRAINLEFT else M_DRAINSHORT) 0))
       else
         match mainq s with
         | [] => ([MDropFields], s)
